@@ -63,6 +63,7 @@ type Universe struct {
 	HID   []int         // transaction index -> distinct-hash id
 	HHash []common.Hash // distinct-hash id -> hash
 	Absent common.Hash  // a hash no transaction of the universe has
+	hidOf  map[common.Hash]int
 }
 
 func senderKey(i int) *common.PrivateKey {
@@ -118,6 +119,7 @@ func NewUniverse(name string, nsenders int, base []uint64, nonces [][]uint64, sp
 		_ = i
 	}
 	u.Absent = common.BytesToHash(common.Sha256([]byte("c17-absent-" + name)))
+	u.hidOf = byHash
 	return u
 }
 
@@ -433,10 +435,8 @@ type Dump struct {
 }
 
 func (im *Impl) hid(h common.Hash) int {
-	for i, x := range im.E.U.HHash {
-		if x == h {
-			return i
-		}
+	if i, ok := im.E.U.hidOf[h]; ok {
+		return i
 	}
 	return -1
 }
